@@ -320,6 +320,21 @@ func checkWindowOrder(c *Ctx, prop string) {
 			}
 		}
 	}
+	// the same shift written with the built-ins: copy(new[1:], old), or append([]T{newest}, old...)
+	for _, cl := range AllCallsDeep(ins) {
+		switch CalleeName(cl.Common()) {
+		case "builtin:copy":
+			dst, src := cl.Common().Args[0], cl.Common().Args[1]
+			if sl, ok := stripConv(dst).(*ssa.Slice); ok && sl.Low != nil && T(sl.Low).String() == "1" && strings.Contains(T(src).String(), "blockBFTInfos") && !strings.Contains(T(src).String(), "slice(") {
+				shift = true
+			}
+		case "builtin:append":
+			head, tail := T(cl.Common().Args[0]), T(cl.Common().Args[1])
+			if head.Op == "list" && len(head.Args) == 1 && strings.Contains(tail.String(), "blockBFTInfos") && tail.Op != "slice" {
+				newestAtZero, shift = true, true
+			}
+		}
+	}
 	c.Require(prop+".O2 window-newest-first", FuncKey(ins), p.Pos(ins.Pos()), "the new header is stored at index 0 and older ones shifted to i+1 (newest first)", newestAtZero && shift, fmt.Sprintf("newestAt0=%v shift=%v", newestAtZero, shift))
 	// scan direction: the index used to read blockBFTInfos in contradicting() is a φ(−1|0, i+1) counter (ascending)
 	asc := false
